@@ -60,6 +60,7 @@ struct Session {
     binson_writer w;
     std::vector<std::string> log;
     bool keep_log;
+    std::map<const Value *, std::vector<Bytes>> cand_cache;
     bool literal = true;  // literal selectors (enumerator / explicit scripts) vs weighted ones
     // classification
     bool skip_container = false, leave_unread = false, leave_pending = false, next_after_inner_leave = false;
@@ -292,7 +293,9 @@ struct Session {
         }
         default: {  // lookups
             const Value *in = cur.innermost();
-            std::vector<Bytes> cand = candidates(*in);
+            auto cit = cand_cache.find(in);
+            if (cit == cand_cache.end()) cit = cand_cache.emplace(in, candidates(*in)).first;
+            const std::vector<Bytes> &cand = cit->second;
             unsigned sel = s.u8();
             Bytes name;
             if (sel == 0xff) { unsigned l = s.u8() % 6; for (unsigned i = 0; i < l; i++) name.push_back(s.u8()); }
@@ -392,6 +395,7 @@ static DocOpts opts() {
     o.cfg.max_nodes = 40;
     o.cfg.max_depth = 7;
     o.cfg.max_fan = 6;
+    o.cfg.wide_max = 300;
     if (!strcmp(prop(), "C07")) o.cfg.objects_favoured = true;
     return o;
 }
